@@ -148,6 +148,12 @@ func (ft *ftrans) fragment(name, what string, at ast.Node, e *env, all map[*gvar
 		}
 	}
 	params := append(append([]*gvar{}, state...), ro...)
+	if ft.sum.frag != nil {
+		ft.sum.frag.ro[name] = nil
+		for _, v := range ro {
+			ft.sum.frag.ro[name] = append(ft.sum.frag.ro[name], param{v.name, v.typ})
+		}
+	}
 	for _, v := range params {
 		if v.typ == "arr" {
 			p.failAt(at, "%s: array %s would have to be passed to a loop fragment (unsupported)", ft.sum.key, v.name)
@@ -241,6 +247,11 @@ func (ft *ftrans) loopStmt(s *ast.ForStmt, rest []ast.Stmt, e *env, k cont) {
 		ts = append(ts, coqType(v.typ))
 	}
 	ft.stateType = strings.Join(ts, " * ")
+	ft.sum.frag = &fragInfo{inner: len(inner), ro: map[string][]param{}}
+	for _, v := range state {
+		ft.sum.frag.stateNames = append(ft.sum.frag.stateNames, v.name)
+		ft.sum.frag.stateTypes = append(ft.sum.frag.stateTypes, coqType(v.typ))
+	}
 	// end of the pre fragment
 	ft.line(e, "inr "+paren(ft.stateTuple(e, s, state)))
 	// the fragments
